@@ -443,6 +443,13 @@ func c15r5(c *Ctx) {
 				}
 				for _, w := range f.WritesIn(n.AST, false) {
 					if ix, ok := ast.Unparen(w.LHS).(*ast.IndexExpr); ok && maps[f.ObjOf(ix.X)] {
+						// a mark in a map of bools is a mark only when it is `true` (a computed value can clear an
+						// earlier mark, and a key listed a third time is then topped up again)
+						if mt, isMap := f.TypeOf(ix.X).Underlying().(*types.Map); isMap && isBasicKind(types.Bool)(mt.Elem()) {
+							if v, isConst := constBoolOf(f, w.RHS); w.RHS == nil || !isConst || !v {
+								continue
+							}
+						}
 						return true
 					}
 				}
@@ -493,16 +500,21 @@ func rejectsDuplicates(c *Ctx, h *hostAPI, f *ir.Func, account *types.Named) boo
 			if hit == miss {
 				hit = m.Succs[1]
 			}
-			onlyErr := true
-			for x := range f.ReachableFromEdges([]*cfgx.Edge{hit}, func(y *cfgx.Node) bool { return y == n }) {
-				if _, isRet := x.AST.(*ast.ReturnStmt); isRet && f.ClassifyReturn(x) != ir.RetError {
-					onlyErr = false
+			// the hit side rejects: it reaches an error return, no other return, and never the next iteration
+			onlyErr, errs := true, 0
+			for x := range f.ReachableFromEdges([]*cfgx.Edge{hit}, nil) {
+				if _, isRet := x.AST.(*ast.ReturnStmt); isRet {
+					if f.ClassifyReturn(x) != ir.RetError {
+						onlyErr = false
+					} else {
+						errs++
+					}
 				}
 				if x == n {
 					onlyErr = false
 				}
 			}
-			if onlyErr {
+			if onlyErr && errs > 0 {
 				for _, e := range n.Succs {
 					if e.Kind == cfgx.Br1 {
 						exits = append(exits, e)
